@@ -242,6 +242,15 @@ where
         pc.g_base_vec[0] = &pc.h_base * c;
         pc.g_base_compressed_vec[0] = pc.g_base_vec[0].compress();
     }
+    if let Some(arr) = spec["gb_eq"].as_array() {
+        // degenerate Pedersen generators: Gb_j = Gb_i (openings differing by +d on r_i and -d on r_j then share one commitment)
+        let i = arr[0].as_u64().unwrap() as usize;
+        let j = arr[1].as_u64().unwrap() as usize;
+        if i < pc.g_base_vec.len() && j < pc.g_base_vec.len() {
+            pc.g_base_vec[j] = pc.g_base_vec[i].clone();
+            pc.g_base_compressed_vec[j] = pc.g_base_vec[j].compress();
+        }
+    }
     RangeParameters::init(bits, cap, pc).map_err(|e| err_name(&e))
 }
 
